@@ -8,3 +8,4 @@ INVARIANT C14_Objects
 INVARIANT C14_Parsed
 INVARIANT C14_ObjectsInside
 INVARIANT NoPanic
+INVARIANT C14_Core
